@@ -129,6 +129,7 @@ type c10Step struct {
 	Before  c10State `json:"-"`
 	Retain  int      `json:"retain"`          // what refreshRetain answers before the operation
 	Err     bool     `json:"err"`             // the entry point refused (no change created)
+	ErrMsg  string   `json:"errmsg,omitempty"`
 	Panic   string   `json:"panic,omitempty"` // the entry point of the real code panicked (reported as a refusal; the history stops)
 	Kinds   []string `json:"kinds,omitempty"`
 	KRevs   []int    `json:"krevs,omitempty"` // revision of each task's own snap-setup
@@ -360,6 +361,20 @@ func (s *verifC10Suite) runOp(c *C, op c10Op, run *c10Run, fail int) c10Step {
 			ropts.Revision = snap.R(rev)
 			s.fakeStore.refreshRevnos = map[string]snap.Revision{c10Snap + "-id": snap.R(rev)}
 			ts, err = snapstate.Update(st, c10Snap, ropts, s.user.ID, flags)
+		case "refresh-path":
+			// refresh from a local file (sideload: `snap install ./some-snap_N.snap` with store metadata for revision N):
+			// always a revision never seen before. mksquashfs is not available offline: the local snap is a snap directory
+			// (meta/snap.yaml), which backend.OpenSnapFile and the suite's fake OpenSnapFile both read
+			rev = run.maxRev + 1
+			dir := filepath.Join(c.MkDir(), c10Snap+"_"+strconv.Itoa(rev))
+			if e := os.MkdirAll(filepath.Join(dir, "meta"), 0755); e != nil {
+				c.Fatal(e)
+			}
+			if e := os.WriteFile(filepath.Join(dir, "meta", "snap.yaml"), []byte("name: "+c10Snap+"\nversion: 1.0\nepoch: 1*\n"), 0644); e != nil {
+				c.Fatal(e)
+			}
+			si := &snap.SideInfo{RealName: c10Snap, SnapID: c10Snap + "-id", Revision: snap.R(rev)}
+			ts, _, err = snapstate.InstallPath(st, si, dir, "", ropts.Channel, flags, nil)
 		case "revert":
 			rev = 0
 			if op.Flags&c10NotBlocked != 0 {
@@ -416,7 +431,7 @@ func (s *verifC10Suite) runOp(c *C, op c10Op, run *c10Run, fail int) c10Step {
 			c.Fatalf("unknown op kind %q", op.Kind)
 		}
 	}()
-	if (op.Kind == "install" || op.Kind == "refresh") && rev > run.maxRev && rev != 99 {
+	if (op.Kind == "install" || op.Kind == "refresh" || op.Kind == "refresh-path") && rev > run.maxRev && rev != 99 {
 		run.maxRev = rev
 	}
 	step.Rev = rev
@@ -424,6 +439,7 @@ func (s *verifC10Suite) runOp(c *C, op c10Op, run *c10Run, fail int) c10Step {
 	step.HookCfg = s.hookCfg
 	if err != nil {
 		step.Err = true
+		step.ErrMsg = err.Error() // for the reader of a replay file; never compared
 	}
 	if ts != nil && err == nil {
 		tasks := ts.Tasks()
@@ -603,7 +619,7 @@ var c10KindCoq = map[string]string{
 	"remove-profiles": "KRemoveProfiles",
 }
 
-var c10OpCoq = map[string]string{"install": "OInstall", "refresh": "ORefresh", "revert": "ORevert", "revert-to": "ORevert",
+var c10OpCoq = map[string]string{"install": "OInstall", "refresh": "ORefresh", "refresh-path": "ORefresh", "revert": "ORevert", "revert-to": "ORevert",
 	"remove": "ORemove", "remove-rev": "ORemoveRev", "enable": "OEnable", "disable": "ODisable", "setcfg": "OSetCfg",
 	"inhibit": "OInhibit", "retain": "ORetain", "retain-str": "ORetain"}
 
@@ -663,7 +679,7 @@ func c10StepCoq(x c10Step, classic bool) string {
 	op := "(mkOp " + strings.Join([]string{c10OpCoq[x.Op.Kind], vh.CoqN(uint64(rev)), vh.CoqBool(x.Op.Kind == "revert"),
 		vh.CoqN(c10ChanID(sup.Chan)), vh.CoqBool(sup.DevMode), vh.CoqBool(sup.JailMode), vh.CoqBool(sup.Classic),
 		vh.CoqBool(sup.TryMode), vh.CoqBool(sup.IgnoreVal), vh.CoqN(c10CohortID(sup.Cohort)), vh.CoqBool(sup.NotBlocked),
-		vh.CoqN(uint64(x.HookCfg)), vh.CoqN(uint64(x.Now))}, " ") + ")"
+		vh.CoqN(uint64(x.HookCfg)), vh.CoqN(uint64(x.Now)), vh.CoqBool(x.Op.Kind != "refresh-path")}, " ") + ")"
 	rset := "RUnset"
 	if len(x.RSet) > 1 {
 		n, _ := strconv.Atoi(x.RSet[1:])
@@ -695,6 +711,8 @@ func c10RandOp(r *vh.Rand, installed bool) c10Op {
 	switch {
 	case !installed && p < 80:
 		op = c10Op{Kind: "install", Rev: r.Range(1, 3), Chan: r.Intn(4)}
+	case p < 8:
+		op = c10Op{Kind: "refresh-path", Chan: c10Pick3(r, 0, 0, r.Intn(4))}
 	case p < 30:
 		op = c10Op{Kind: "refresh", Rev: 0, Chan: c10Pick3(r, 0, 0, r.Intn(4))}
 	case p < 45:
@@ -773,6 +791,11 @@ func c10Sweeps(tier string) []c10In {
 			{Kind: "revert"}, {Kind: "revert-to", Rev: 3, Flags: c10NotBlocked}, {Kind: "revert-to", Rev: 1},
 			{Kind: "revert-to", Rev: 3}, {Kind: "revert", Flags: c10NotBlocked}, {Kind: "revert"}, {Kind: "revert-to", Rev: 2},
 			{Kind: "revert-to", Rev: 1, Flags: c10NotBlocked}}},
+		// C12: refresh from a LOCAL file (InstallPath) on a snap that already holds retain revisions: default 2 (classic),
+		// default 3 (core), configured number, legacy string; one slot is reserved for the new revision whatever its source
+		{Ops: []c10Op{inst, newr, {Kind: "refresh-path"}, {Kind: "refresh-path", Fail: 30}, {Kind: "refresh-path"}, newr}},
+		{Core: true, Ops: []c10Op{inst, newr, newr, {Kind: "refresh-path"}, {Kind: "retain", Rev: 2}, {Kind: "refresh-path"}}},
+		{Ops: []c10Op{{Kind: "retain-str", Rev: 3}, inst, {Kind: "refresh-path"}, {Kind: "refresh-path"}, sw(c10Op{Kind: "refresh-path", Flags: hook})}},
 		// C12: two kept revisions after the current one (reverted twice), refresh to the first of them: the other goes
 		{Core: true, Ops: []c10Op{inst, newr, newr, {Kind: "revert"}, {Kind: "revert"}, {Kind: "refresh", Rev: 2}}},
 		{Core: true, Ops: []c10Op{{Kind: "retain", Rev: 5}, inst, newr, newr, newr, {Kind: "revert-to", Rev: 1, Flags: c10NotBlocked},
@@ -831,7 +854,7 @@ func c10Gen(r *vh.Rand, tier string, n int) []c10In {
 	for i := 0; i < (n+2)/3; i++ {
 		in := c10In{Core: r.Chance(1, 2), Ops: []c10Op{{Kind: "retain", Rev: r.Range(4, 6)}, {Kind: "install", Rev: 1, Chan: 1}}}
 		for j, m := 0, r.Range(3, 5); j < m; j++ {
-			in.Ops = append(in.Ops, c10Op{Kind: "refresh"})
+			in.Ops = append(in.Ops, c10Op{Kind: []string{"refresh", "refresh", "refresh-path"}[r.Intn(3)]})
 		}
 		if r.Chance(1, 3) {
 			in.Ops = append(in.Ops, c10Op{Kind: "revert", Flags: c10Pick3(r, 0, c10NotBlocked, 0)})
